@@ -27,7 +27,8 @@ func init() {
 	})
 	register(Check{
 		ID: "C10", Title: "Lexical scoping and structured control flow", Level: "model_checking",
-		Units: []Unit{evalUnit([]string{"evaluator/common.go", "evaluator/gen.go", "evaluator/gen2.go", "evaluator/c10.go", "evaluator/c12.go"},
+		Units: []Unit{evalUnit([]string{"evaluator/common.go", "evaluator/gen.go", "evaluator/gen2.go", "evaluator/c10.go", "evaluator/c12.go", "evaluator/c15.go"},
+			Harness{Fn: "ZZC15Events", Quick: p("E", 2, "H", 1), Thorough: p("E", 2, "H", 2), Expect: []string{"events-ok", "witness:end"}},
 			Harness{Fn: "ZZC12Iter", Quick: p("K", 3), Thorough: p("K", 4), Expect: []string{"iter-ok", "witness:end"}},
 			Harness{Fn: "ZZC10Structure", Quick: p("D", 2, "L0", 1, "L1", 1, "L2", 1), Thorough: p("D", 2, "L0", 1, "L1", 2, "L2", 1, "DECLFIRST", 1), ThoroughBudget: 25 * time.Minute, Expect: []string{"structure-ok", "witness:end"}},
 			Harness{Fn: "ZZC10Range", Quick: p("U", 3), Thorough: p("U", 5), Expect: []string{"range-ok", "zero-step", "witness:end"}, Cross: true},
@@ -110,6 +111,7 @@ func init() {
 			Harness{Fn: "ZZC06GenFlat", Quick: p("PROP", 6, "FLAT", 3), Thorough: p("PROP", 6, "FLAT", 4), Expect: []string{"gen-ok", "witness:end"}},
 			Harness{Fn: "ZZC07Seq", Quick: p("PROP", 6, "SEQ", 4), Thorough: p("PROP", 6, "SEQ", 6), Expect: []string{"seq-ok", "witness:end"}},
 			Harness{Fn: "ZZC07Num", Quick: p("PROP", 6), Thorough: p("PROP", 6), Expect: []string{"num-ok", "witness:end"}},
+			Harness{Fn: "ZZC07Str", Quick: p("PROP", 6, "S", 2), Thorough: p("PROP", 6, "S", 3), Expect: []string{"str-ok", "witness:end"}},
 		)},
 		Assumptions: []string{
 			"inputs: a corpus of 26 hand-written layouts of every syntax form (comments in every position, blank-line runs, multi-line array/map literals, tabs, \\r, missing final newline) and every generated program of the C10 family in a plain and a messy layout (double spaces, tabs, blank-line runs of 1..3, trailing and own-line comments)",
@@ -131,6 +133,7 @@ func init() {
 			Harness{Fn: "ZZC06GenFlat", Quick: p("PROP", 7, "FLAT", 3), Thorough: p("PROP", 7, "FLAT", 4), Expect: []string{"gen-ok", "witness:end"}},
 			Harness{Fn: "ZZC07Seq", Quick: p("PROP", 7, "SEQ", 4), Thorough: p("PROP", 7, "SEQ", 6), Expect: []string{"seq-ok", "witness:end"}},
 			Harness{Fn: "ZZC07Num", Quick: p("PROP", 7), Thorough: p("PROP", 7), Expect: []string{"num-ok", "witness:end"}},
+			Harness{Fn: "ZZC07Str", Quick: p("PROP", 7, "S", 2), Thorough: p("PROP", 7, "S", 3), Expect: []string{"str-ok", "witness:end"}},
 		), mainUnit([]string{"main/c18.go", "main/c18native.go", "main/c07m.go"},
 			Harness{Fn: "ZZC07Check", Expect: []string{"check-ok", "witness:end"}},
 			Harness{Fn: "ZZC07CheckFiles", Quick: p("FILES", 2), Thorough: p("FILES", 3), Expect: []string{"files-ok", "files-unformatted", "witness:end"}},
